@@ -2,7 +2,7 @@
 # Run every claimed check once (sequentially) on /repo's working tree and print a summary.
 # usage: tools/run_all.sh [quick|thorough]
 tier=${1:-quick}
-cd "$(dirname "$0")/.."
+cd "$(dirname "$0")/.." && mkdir -p logs
 for id in $(python3 -c "import json; print(' '.join(c['property_id'] for c in json.load(open('MANIFEST.json'))['checks']))"); do
   s=$(date +%s)
   ./check $id --tier $tier > logs/run_all_$id.out 2>&1
